@@ -24,7 +24,8 @@
    (C14_mes_cost_positive_costs_needed).  For Cardinality_Sat the guarantee proved is PLAIN EJR (strict
    "up to one" bound + integrality), which implies EJR up to one. *)
 From PB Require Import Spec.JR Model.MesRule Spec.MesSpec Proofs.MesEJRCore Proofs.MesEJRGroup Proofs.MesEJR
-  Proofs.MesEJRRule Proofs.MesEJRExamples Model.Cohesive Proofs.MesEJRChecker.
+  Proofs.MesEJRRule Proofs.MesEJRExamples Model.Cohesive Proofs.MesEJRChecker
+  Proofs.MesEJRIrr Proofs.MesEJRAddCore Proofs.MesEJRAdd Proofs.MesEJRAddRule Proofs.MesEJRAddExamples.
 Open Scope Q_scope.
 
 (* ---------- headline: the model of the implementation, any multiplicities ---------- *)
@@ -239,12 +240,146 @@ Theorem C14_mes_cost_positive_costs_needed : exists x approves o,
 Proof. exact mes_cost_needs_positive_costs. Qed.
 Print Assumptions C14_mes_cost_positive_costs_needed.
 
-(* Scope.  Covered: the resolute plain rule and the resolute budget-increase variant, any tie-breaking key,
-   enumeration order, binary_sat flag and multiplicities; the STRICT published form "sat(W + p) > sat(T)"
-   is what C14_mes_run_cost_strict / C14_mes_run_card_strict state.
-   NOT covered (no statement made): the irresolute model (no theorem links its allocations to resolute
-   runs); a non-empty initial allocation (the endowment is then (budget - cost(initial))/n, below the
+(* Scope.  Covered: the resolute plain rule, the resolute budget-increase variant and every allocation of
+   the irresolute plain rule (below), any tie-breaking key, enumeration order, binary_sat flag and
+   multiplicities; the STRICT published form "sat(W + p) > sat(T)" is what C14_mes_run_cost_strict /
+   C14_mes_run_card_strict state.
+   NOT covered (no statement made): the irresolute budget-increase variant; a non-empty initial allocation (the endowment is then (budget - cost(initial))/n, below the
    budget/n the argument needs, while cohesiveness is measured against the whole budget). *)
+
+(* ---------- the irresolute rule: every returned allocation ----------
+   (every allocation of mes_irresolute is, sorted, the resolute outcome under some tie-breaking key:
+   Props/C08.v C08_mes_irr_eq_orders; the theorems above hold for every key) *)
+
+Theorem C14_mes_irresolute_cost_EJR_any : forall x approves Ws,
+  mi_init x = [] -> wf_voters (mi_voters x) -> 0 <= mi_budget x ->
+  NoDup (mi_enum x) -> (forall p, In p (mi_enum x) <-> (p < length (mi_costs x))%nat) ->
+  mes_irresolute x = Some Ws ->
+  forall X, In X Ws ->
+  Forall (fun c => 0 < c) (mi_costs x) ->
+  ut_approval nat (class_voters (mi_voters x)) approves (mi_ut x) (cost (mi_inst x)) ->
+  EJR_app (mi_inst x) nat (class_voters (mi_voters x)) approves (mi_ut x) UpToAny X.
+Proof. exact mes_irr_cost_EJR_any. Qed.
+Print Assumptions C14_mes_irresolute_cost_EJR_any.
+
+Theorem C14_mes_irresolute_card_EJR : forall x approves Ws,
+  mi_init x = [] -> wf_voters (mi_voters x) -> 0 <= mi_budget x ->
+  NoDup (mi_enum x) -> (forall p, In p (mi_enum x) <-> (p < length (mi_costs x))%nat) ->
+  mes_irresolute x = Some Ws ->
+  forall X, In X Ws ->
+  Forall (fun c => 0 <= c) (mi_costs x) ->
+  ut_approval nat (class_voters (mi_voters x)) approves (mi_ut x) (fun _ => 1) ->
+  EJR_app (mi_inst x) nat (class_voters (mi_voters x)) approves (mi_ut x) Plain X.
+Proof. exact mes_irr_card_EJR. Qed.
+Print Assumptions C14_mes_irresolute_card_EJR.
+
+Theorem C14_mes_irresolute_card_EJR_one : forall x approves Ws,
+  mi_init x = [] -> wf_voters (mi_voters x) -> 0 <= mi_budget x ->
+  NoDup (mi_enum x) -> (forall p, In p (mi_enum x) <-> (p < length (mi_costs x))%nat) ->
+  mes_irresolute x = Some Ws ->
+  forall X, In X Ws ->
+  Forall (fun c => 0 <= c) (mi_costs x) ->
+  ut_approval nat (class_voters (mi_voters x)) approves (mi_ut x) (fun _ => 1) ->
+  EJR_app (mi_inst x) nat (class_voters (mi_voters x)) approves (mi_ut x) UpToOne X.
+Proof. exact mes_irr_card_EJR_one. Qed.
+Print Assumptions C14_mes_irresolute_card_EJR_one.
+
+(* the EJR notions do not depend on the order of the outcome list *)
+Theorem C14_EJR_approval_perm : forall I V (P : list V) approves ut r W W',
+  Permutation W W' -> EJR_app I V P approves ut r W -> EJR_app I V P approves ut r W'.
+Proof. exact EJR_app_perm. Qed.
+Print Assumptions C14_EJR_approval_perm.
+
+(* ---------- general additive utilities (Peters-Pierczynski-Skowron 2021: EJR up to one project) ----------
+   cardinal ballots, Additive_Cardinal_Sat: the rule runs with the scores (ut_is_score), scores >= 0
+   (score_nonneg), costs >= 0; the cardinal notion of Spec/JR.v: S is (alpha,T)-cohesive when every member
+   scores every p in T at least alpha p (alpha arbitrary, e.g. the group minimum) *)
+
+Theorem C14_mes_additive_EJR_one : forall x score,
+  mi_init x = [] -> wf_voters (mi_voters x) -> 0 <= mi_budget x ->
+  NoDup (mi_enum x) -> (forall p, In p (mi_enum x) <-> (p < length (mi_costs x))%nat) ->
+  Forall (fun c => 0 <= c) (mi_costs x) ->
+  ut_is_score nat (class_voters (mi_voters x)) score (mi_ut x) ->
+  score_nonneg nat (class_voters (mi_voters x)) score ->
+  forall o, mes_outcome x o ->
+  EJR_card (mi_inst x) nat (class_voters (mi_voters x)) score (mi_ut x) UpToOne (o_alloc o).
+Proof. exact mes_add_EJR_one. Qed.
+Print Assumptions C14_mes_additive_EJR_one.
+
+Theorem C14_mes_irresolute_additive_EJR_one : forall x score,
+  mi_init x = [] -> wf_voters (mi_voters x) -> 0 <= mi_budget x ->
+  NoDup (mi_enum x) -> (forall p, In p (mi_enum x) <-> (p < length (mi_costs x))%nat) ->
+  Forall (fun c => 0 <= c) (mi_costs x) ->
+  ut_is_score nat (class_voters (mi_voters x)) score (mi_ut x) ->
+  score_nonneg nat (class_voters (mi_voters x)) score ->
+  forall Ws X, mes_irresolute x = Some Ws -> In X Ws ->
+  EJR_card (mi_inst x) nat (class_voters (mi_voters x)) score (mi_ut x) UpToOne X.
+Proof. exact mes_irr_add_EJR_one. Qed.
+Print Assumptions C14_mes_irresolute_additive_EJR_one.
+
+(* strict published form, any profile list satisfying group_ok, any single run from endowments >= budget/n:
+   some member i has alpha(T) <= sat_i(W), or alpha(T) < sat_i(W) + u_i(p) for a project p of T outside W *)
+Theorem C14_mes_model_additive_strict : forall x voters score,
+  mi_init x = [] -> wf_voters (mi_voters x) -> group_ok (mi_voters x) voters -> 0 <= mi_budget x ->
+  NoDup (mi_enum x) -> (forall p, In p (mi_enum x) <-> (p < length (mi_costs x))%nat) ->
+  Forall (fun c => 0 <= c) (mi_costs x) ->
+  ut_is_score nat voters score (mi_ut x) -> score_nonneg nat voters score ->
+  forall b0 o, share x <= b0 -> run_once_res x b0 = Some o ->
+  forall S T alpha, cohesive_card (mi_inst x) nat voters score S T alpha ->
+  exists i, In i S /\
+    (asum alpha T <= sat nat (mi_ut x) i (o_alloc o) \/
+     exists p, In p T /\ ~ In p (o_alloc o) /\ asum alpha T < sat nat (mi_ut x) i (o_alloc o) + mi_ut x i p).
+Proof. exact mes_model_add_strict. Qed.
+Print Assumptions C14_mes_model_additive_strict.
+
+(* the core with the disjunctive payment bound, and its additive-utility instance
+   (kappa = cost(pstar)/alpha(pstar), pstar minimising cost/alpha among the unbought projects of T) *)
+Theorem C14_mes_price_core_disjunctive : forall cs P tb, wf_voters P ->
+  forall (S : list nat) pstar theta (w : nat -> proj -> Q),
+  NoDup S -> (forall i, In i S -> In i (s_supporters P pstar)) ->
+  s_cost cs pstar <= Qsum (map (fun i => s_mul P i * theta) S) ->
+  (forall i q, In i S -> 0 <= w i q) ->
+  (forall b q r, wf_buds P b -> (forall j, In j S -> theta <= s_bud b j) ->
+     0 < s_cost cs q -> is_rho cs P b q r ->
+     (forall r', s_cost cs pstar <= paid P b r' pstar -> r <= r') ->
+     (forall i, In i S -> 0 < s_util P i q -> Qmin (s_bud b i) (r * s_util P i q) <= w i q) \/
+     (exists j, In j S /\ 0 < s_util P j q /\ Qmin (s_bud b j) (r * s_util P j q) <= w j q /\
+                s_bud b j - Qmin (s_bud b j) (r * s_util P j q) < theta)) ->
+  forall b rem W, spec_run cs P tb b rem W -> wf_buds P b -> (forall p, In p rem -> 0 < s_cost cs p) ->
+  In pstar rem -> ~ In pstar W -> (forall j, In j S -> theta <= s_bud b j) ->
+  exists i, In i S /\ s_bud b i - theta < Qsum (map (w i) W).
+Proof. exact ejr_core2. Qed.
+Print Assumptions C14_mes_price_core_disjunctive.
+
+Theorem C14_mes_additive_group : forall cs P tb, wf_voters P -> forall S : list nat,
+  NoDup S -> S <> [] -> (forall i, In i S -> (i < length P)%nat) ->
+  forall T alpha b0 rem W pstar,
+  (forall i q, In i S -> 0 <= s_util P i q) ->
+  (forall i p, In i S -> In p T -> alpha p <= s_util P i p) ->
+  (forall p, 0 <= s_cost cs p) -> In pstar T -> 0 < alpha pstar ->
+  0 <= b0 -> spec_run cs P tb (repeat b0 (length P)) rem W ->
+  (forall p, In p rem -> 0 < s_cost cs p) -> In pstar rem -> ~ In pstar W ->
+  s_cost cs pstar <= mS P S * b0 ->
+  exists i, In i S /\
+    mS P S * b0 - s_cost cs pstar
+    < Qsum (map (ej_awt cs P T alpha (s_cost cs pstar / alpha pstar) i) W).
+Proof. exact ej_add_group. Qed.
+Print Assumptions C14_mes_additive_group.
+
+(* non-vacuity of the additive-utility hypotheses: scores 3,1,0 / 2,0,1 (multiplicity 2) / 0,2,2, costs 2,3,3,
+   budget 6: the rule selects {0,2} (resolute and irresolute); {class 0, class 2} is (1,{1})-cohesive *)
+Example C14mes_additive_nonvacuous :
+  let Pa := [mkV [3; 1; 0] 1%nat; mkV [2; 0; 1] 2%nat; mkV [0; 2; 2] 1%nat] in
+  let xa := mkIn [2; 3; 3] 6 Pa (key_of_list [0; 2; 1]) [2; 0; 1]%nat false [] in
+  mi_init xa = [] /\ wf_voters (mi_voters xa) /\ 0 <= mi_budget xa /\ NoDup (mi_enum xa) /\
+  (forall p, In p (mi_enum xa) <-> (p < length (mi_costs xa))%nat) /\
+  Forall (fun c => 0 <= c) (mi_costs xa) /\
+  ut_is_score nat (class_voters Pa) (mi_ut xa) (mi_ut xa) /\
+  score_nonneg nat (class_voters Pa) (mi_ut xa) /\
+  option_map o_alloc (mes_resolute xa) = Some [0; 2]%nat /\
+  mes_irresolute xa = Some [[0; 2]%nat] /\
+  cohesive_card (mi_inst xa) nat (class_voters Pa) (mi_ut xa) [0; 2]%nat [1%nat] (fun _ => 1).
+Proof. exact mes_add_example. Qed.
 
 (* non-vacuity: two concrete elections with a class of multiplicity 2 (4 voters, budget 6, costs 2,3,3) on
    which every hypothesis of the headline theorems holds, the model selects {0,2}, and the group
